@@ -136,6 +136,25 @@ func main() {
 					continue
 				}
 				name := dir + ":" + recvName(fd) + fd.Name.Name
+				// every statement that reads the clock is a scheduling point as well: between "is
+				// it expired?" and "how long has it left?" time may pass
+				nclock := 0
+				fd.Body.List = clockYields(fd.Body.List, func() ast.Stmt {
+					nclock++
+					cname := fmt.Sprintf("%s#clock%d", name, nclock)
+					h := fnv.New32a()
+					h.Write([]byte(cname))
+					cid := h.Sum32()
+					for sites[cid] != "" && sites[cid] != cname {
+						cid++
+					}
+					sites[cid] = cname
+					nyield++
+					return &ast.ExprStmt{X: &ast.CallExpr{
+						Fun:  &ast.SelectorExpr{X: ast.NewIdent("simrt"), Sel: ast.NewIdent("Yield")},
+						Args: []ast.Expr{&ast.BasicLit{Kind: token.INT, Value: strconv.FormatUint(uint64(cid), 10)}},
+					}}
+				})
 				h := fnv.New32a()
 				h.Write([]byte(name))
 				id := h.Sum32()
@@ -339,4 +358,80 @@ func fixImports(f *ast.File, add map[string]bool) {
 		firstImport.Rparen = firstImport.End()
 	}
 	f.Decls = decls
+}
+
+// clockYields inserts a yield (made by mk) before every statement of the list - and of the nested
+// blocks - whose own expressions call time.Now, time.Until or time.Since. Function literals are
+// left alone (their bodies run on other goroutines or later).
+func clockYields(list []ast.Stmt, mk func() ast.Stmt) []ast.Stmt {
+	var out []ast.Stmt
+	for _, st := range list {
+		switch s := st.(type) {
+		case *ast.BlockStmt:
+			s.List = clockYields(s.List, mk)
+		case *ast.IfStmt:
+			for cur := s; cur != nil; {
+				cur.Body.List = clockYields(cur.Body.List, mk)
+				switch e := cur.Else.(type) {
+				case *ast.IfStmt:
+					cur = e
+				case *ast.BlockStmt:
+					e.List = clockYields(e.List, mk)
+					cur = nil
+				default:
+					cur = nil
+				}
+			}
+		case *ast.ForStmt:
+			s.Body.List = clockYields(s.Body.List, mk)
+		case *ast.RangeStmt:
+			s.Body.List = clockYields(s.Body.List, mk)
+		case *ast.SwitchStmt:
+			clockYieldsClauses(s.Body, mk)
+		case *ast.TypeSwitchStmt:
+			clockYieldsClauses(s.Body, mk)
+		case *ast.SelectStmt:
+			clockYieldsClauses(s.Body, mk)
+		}
+		if readsClock(st) {
+			out = append(out, mk())
+		}
+		out = append(out, st)
+	}
+	return out
+}
+
+func clockYieldsClauses(b *ast.BlockStmt, mk func() ast.Stmt) {
+	for _, c := range b.List {
+		switch cc := c.(type) {
+		case *ast.CaseClause:
+			cc.Body = clockYields(cc.Body, mk)
+		case *ast.CommClause:
+			cc.Body = clockYields(cc.Body, mk)
+		}
+	}
+}
+
+// readsClock looks at the statement's own expressions, not at nested blocks or function literals.
+func readsClock(st ast.Stmt) bool {
+	switch st.(type) {
+	case *ast.LabeledStmt, *ast.GoStmt, *ast.DeferStmt, *ast.SelectStmt:
+		return false
+	}
+	found := false
+	ast.Inspect(st, func(n ast.Node) bool {
+		switch x := n.(type) {
+		case *ast.BlockStmt, *ast.FuncLit:
+			return false
+		case *ast.CallExpr:
+			if se, ok := x.Fun.(*ast.SelectorExpr); ok {
+				if id, ok := se.X.(*ast.Ident); ok && id.Name == "time" && id.Obj == nil &&
+					(se.Sel.Name == "Now" || se.Sel.Name == "Until" || se.Sel.Name == "Since") {
+					found = true
+				}
+			}
+		}
+		return !found
+	})
+	return found
 }
